@@ -16,7 +16,9 @@ CONFIG = {'level': 'proof',
                  'letter<->code mapping are C16/C19',
                  'end to end: Model/Writer.lean is a whole-archive reference writer with all compressor decisions as data; '
                  'the C02 harness shows every real archive is an instance (byte identity). Proved for ALL well-formed '
-                 'decisions (DecisionsOK), k >= 1, inputs over the literal codes: pieces_tile, read_write_bases (from the '
+                 'decisions (DecisionsOK), k >= 1, inputs over the literal codes: pieces_tile, read_write_samples (the decoder\'s '
+                 'last stage returns all samples with catalogue = catalogueOf inp, bases = basesOf inp, no violation, from '
+                 'the catalogue tables and the group table), read_write_bases (from the '
                  'group table the decoder builds - Props.C02.group_roundtrip - decodeContig on the registered descriptors '
                  'returns every contig\'s bases and no violation), on top of Props.C02.container_returns_every_part and '
                  'read_write_segments. The final theorem read_write (decodeArchive (writeArchive ..) = ok d, catalogue, '
@@ -39,7 +41,8 @@ MANIFEST = {'category': 'proof',
          'splitter predicate, every list of split decisions, every vector of orientation flags and storage forms: '
          'segment (C10), split, orient, store, read back, undo orientation, reconstruct_contig = the contig). This is '
          'the composition C10 + C09 + C12 + C07 + C02(unpack_pack) for the bases of a contig. About the whole-archive '
-         'reference writer (Model/Writer.lean, every compressor decision is data, DecisionsOK decidable): pieces_tile and '
+         'reference writer (Model/Writer.lean, every compressor decision is data, DecisionsOK decidable): pieces_tile, '
+         'read_write_samples (all samples: catalogue and bases equal the input, no violation) and '
          'read_write_bases (all decisions: the decoder returns the bases of every contig from the descriptors the writer '
          'registers, no violation), composing Props.C02.read_write_segments / group_roundtrip; the full read_write is not '
          'finished (missing glue listed in Props/C01.lean). The end-to-end '
